@@ -61,7 +61,9 @@ theorem killTh_armed {a : Ctx} {sys : Sys} (th : Nat) (h : ∀ t ∈ sys.threads
 theorem killTh_cancelled {a : Ctx} {sys : Sys} (th : Nat) (h : a ∈ sys.cancelled) : a ∈ (killTh sys th).cancelled := by
   simp only [killTh]
   split
-  · exact List.mem_cons_of_mem _ h
+  · split
+    · exact h
+    · exact List.mem_cons_of_mem _ h
   · exact h
 
 theorem FrameOK_killTh {sys : Sys} (th : Nat) {f : Frame} (h : FrameOK sys f) : FrameOK (killTh sys th) f := by
@@ -127,6 +129,27 @@ theorem SettleOK.pre {a : Ctx} {st st' : List Frame} {m m' : Mode} {o : Settled}
     simp only [Settled.pre]
     rw [if_pos hm] at hle
     omega
+  running := h.running
+  finished := h.finished
+
+theorem SettleOK.addEvent {a : Ctx} {st : List Frame} {m : Mode} {o : Settled} (ev : Event)
+    (h : SettleOK a st m o) (hi : isInstr ev = false) (hp : isPoll ev = false) :
+    SettleOK a st m (o.pre ev) where
+  inv := h.inv
+  noInstr := by
+    intro e he
+    simp only [Settled.pre, List.mem_cons] at he
+    rcases he with rfl | he
+    · exact hi
+    · exact h.noInstr e he
+  noPoll := by
+    intro e he
+    simp only [Settled.pre, List.mem_cons] at he
+    rcases he with rfl | he
+    · exact hp
+    · exact h.noPoll e he
+  phi_le := h.phi_le
+  phi_lt := h.phi_lt
   running := h.running
   finished := h.finished
 
@@ -211,7 +234,7 @@ theorem settle_ok (a : Ctx) : ∀ (st : List Frame) (sys : Sys) (m : Mode),
           exact (ih _ (.retG (some e)) (hr.kill th)).pre _ (by simp [isInstr]) (by simp [isPoll]) (by simp [phi, Mode.isRaising])
         | true =>
           simp only [settle]
-          exact (ih sys (.raising e) hr).through (by simp [phi, Mode.isRaising])
+          exact ((ih _ (.raising e) (hr.kill th)).through (by simp [phi])).addEvent _ (by simp [isInstr]) (by simp [isPoll])
     | retG v =>
       cases f with
       | act th l g =>
@@ -645,9 +668,15 @@ theorem dispatchStep_attached {a : Ctx} {s : St} {th : Nat} {r : List Frame} (ac
       refine ⟨⟨?_, ?_⟩, h.running, h.finished, h.blocked⟩
       · intro t ht
         simp only [List.mem_append, List.mem_singleton] at ht
+        have hcr := h.sys.armed _ (Sys.thread_mem hlt)
         rcases ht with ht | rfl
-        · exact h.sys.armed t ht
-        · exact newThread_armed _ _ (h.sys.armed _ (Sys.thread_mem hlt))
+        · rcases List.mem_or_eq_of_mem_set ht with h1 | h1
+          · exact h.sys.armed t h1
+          · subst h1
+            split
+            · exact hcr
+            · exact hcr
+        · exact newThread_armed _ _ hcr
       · intro f hf
         exact FrameOK_mono (by simp) (h.sys.frames f hf)
     | block k ready =>
@@ -795,7 +824,7 @@ theorem settle_rooted (th : Nat) (l : Loop) (b : Frame) (hb : okRoot b = true) :
       | trun t w =>
         cases w with
         | false => simp only [List.cons_append, settle, Settled.pre]; exact ih _ _ (by intro e he; cases he)
-        | true => simp only [List.cons_append, settle]; exact ih sys _ hm
+        | true => simp only [List.cons_append, settle, Settled.pre]; exact ih _ _ hm
     | retG v =>
       cases f with
       | act t l' g =>
